@@ -1,5 +1,6 @@
 import QrlModel.Proofs.DilPack
 import QrlModel.Proofs.DilSigCanon
+import QrlModel.Proofs.DilE2E
 /-! # C13 — Dilithium key and signature encodings are lossless and canonical
 
 Lane identities are proved on the *generated* lane functions (the loop bodies of the ten pack/unpack
@@ -51,6 +52,24 @@ theorem sig_canonical (sig : Bytes) (hl : sig.length = Gen.Dil.CryptoBytes) (par
 theorem sig_layout (c : Bytes) (z h : List Poly) (hc : c.length = 32) :
     (packSig c z h).take 32 = c ∧ ((packSig c z h).drop 32).take (z.flatMap polyZPack).length = z.flatMap polyZPack := by
   simp [packSig, ← hc]
+
+/-- **secret-key layout is lossless**: ρ ‖ key ‖ tr ‖ pack(s1) ‖ pack(s2) ‖ pack(t0) decodes to exactly those components,
+for every s1 ∈ [−2,2]^{L×256}, s2 ∈ [−2,2]^{K×256}, t0 ∈ (−2^12, 2^12]^{K×256} (all K rows of s2 and t0, all L rows of s1) -/
+theorem sk_lossless (rho key tr : Bytes) (s1 s2 t0 : List Poly) (hr : rho.length = 32) (hk : key.length = 32) (ht : tr.length = 32)
+    (l1 : s1.length = Gen.Dil.L) (l2 : s2.length = Gen.Dil.K) (l3 : t0.length = Gen.Dil.K)
+    (g1 : ∀ p ∈ s1, NttBridge.Good (-2) 2 p) (g2 : ∀ p ∈ s2, NttBridge.Good (-2) 2 p) (g3 : ∀ p ∈ t0, NttBridge.Good (-4095) 4096 p) :
+    unpackSk (rho ++ key ++ tr ++ s1.flatMap polyEtaPack ++ s2.flatMap polyEtaPack ++ t0.flatMap polyT0Pack) = (rho, key, tr, s1, s2, t0) := by
+  obtain ⟨u1, u2, u3, u4, u5, u6⟩ := NttBridge.sk_unpack rho key tr s1 s2 t0 hr hk ht l1 l2 l3 g1 g2 g3
+  unfold unpackSk
+  dsimp only
+  rw [u1, u2, u3, u4, u5, u6]
+
+/-- **public-key layout is lossless**: ρ ‖ pack(t1) decodes to (ρ, t1) for every t1 ∈ [0, 2^10)^{K×256} -/
+theorem pk_lossless (rho : Bytes) (t1 : List Poly) (hr : rho.length = 32) (l1 : t1.length = Gen.Dil.K) (g1 : ∀ p ∈ t1, NttBridge.Good 0 1023 p) :
+    unpackPk (rho ++ t1.flatMap polyT1Pack) = (rho, t1) := by
+  obtain ⟨p1, p2⟩ := NttBridge.pk_unpack rho t1 hr l1 g1
+  unfold unpackPk
+  rw [p1, p2]
 
 -- non-vacuity: extreme values are inside the stated ranges
 example : BitVec.slt (BitVec.ofInt 32 (-524288)) (BitVec.ofInt 32 (-524287)) = true ∧ BitVec.sle (524288#32) 524288#32 = true := by decide
